@@ -756,6 +756,21 @@ func (tb *TB) slice(x *ssa.Slice) *Term {
 	if al, ok := x.X.(*ssa.Alloc); ok && al.Comment == "makeslice" {
 		return tb.makeSliceAlloc(al, x)
 	}
+	// var buf [N]T; buf[:] — a local zero array whose only use is one full slice is the
+	// same buffer as make([]T, N)
+	if al, ok := x.X.(*ssa.Alloc); ok && lo == nil && hi == nil && x.Max == nil && al.Comment != "complit" && al.Comment != "slicelit" {
+		if _, isArr := al.Type().(*types.Pointer).Elem().Underlying().(*types.Array); isArr {
+			n := 0
+			for _, r := range *al.Referrers() {
+				if _, ok := r.(*ssa.DebugRef); !ok {
+					n++
+				}
+			}
+			if n == 1 {
+				return tb.makeSliceAlloc(al, x)
+			}
+		}
+	}
 	// slice literal: &[N]T{...}[:]
 	if al, ok := x.X.(*ssa.Alloc); ok && lo == nil && hi == nil {
 		if arr, ok := al.Type().(*types.Pointer).Elem().Underlying().(*types.Array); ok {
